@@ -44,9 +44,11 @@ def run_cap(chk, prog, fns, rule="B1", noreturn=("libast_fatal_error",), kinds=N
             loc = o.fn.loc(o.node)
             if o.ok:
                 chk.ob(rule, fn.name, site, True, loc=loc, proof="entailed by the path condition on every explored path (Fourier-Motzkin)")
-            elif o.undecided and strict and o.kind in ("lower", "upper", "count", "null", "slice"):
+            elif o.undecided and strict and o.kind in ("lower", "upper", "count", "null", "slice") and fn.nodes.get(o.node.get("i")) is o.node:
                 # strict scope: every bound of these functions is proven on the reviewed tree, so a bound that can no
-                # longer be established is reported
+                # longer be established is reported.  Obligations inside an inlined helper (o.fn is not the analysed function)
+                # stay undecided: the invariants across a call boundary are weaker, and a helper extracted by a refactoring
+                # must not turn into an alarm.
                 chk.ob(rule, fn.name, site, False, loc=loc,
                        detail="%s: no bound can be established any more: %s (the loop invariants that proved this on the reviewed tree "
                               "no longer hold)" % (fn.name, o.detail))
